@@ -45,6 +45,10 @@ func TestReplayBatch(t *testing.T) {
 					if _, ok := r.(verif.AssumeFalse); ok {
 						return
 					}
+					if d, ok := r.(verif.Diverged); ok {
+						fmt.Println("TRACE DIVERGED", d.Msg)
+						return
+					}
 					fmt.Println("TRACE PANIC", r)
 				}
 			}()
